@@ -430,12 +430,23 @@ def check_cache_coherence(ck, cm):
 
 
 def _fmt_suffix(fa: FA):
-    """'<x>.memento.json'.format(...) in a return -> '.memento.json'"""
+    """a returned string built as <x> + '.memento.json' (format / f-string / concatenation) -> [(call-like node, '{}.memento.json')]
+    The node offered is a pseudo-call whose .args are the interpolated expressions, so callers can keep
+    asking which calls feed it."""
     out = []
-    for c in fa.calls("format"):
-        s = A.const_str(A.call_recv(c))
-        if s is not None and s.startswith("{}"):
-            out.append((c, s))
+    for r in fa.returns():
+        if r.value is None:
+            continue
+        for x in ast.walk(r.value):
+            t = A.str_template(x)
+            if t is not None and t[0].startswith("{}") and len(t[0]) > 2 and t[1]:
+                tmpl = t[0]
+                # several leading fields ('{}/{}.memento.json'): keep the part from the last field on
+                last = tmpl.rfind("{}")
+                node = ast.Call(func=ast.Name(id="format", ctx=ast.Load()), args=list(t[1]), keywords=[])
+                ast.copy_location(node, x)
+                out.append((node, "{}" + tmpl[last + 2:]))
+                break
     return out
 
 
